@@ -266,3 +266,85 @@ Example C18_nonvacuous_power_loop :
   power_result 2 (fun k => (2 <= k)%N) = Some 2%N /\
   power_result 1 (fun k => (2 <= k)%N) = None.
 Proof. by []. Qed.
+
+(* ======================================================================== *)
+(* Extension: equivalence of the permuted systems, pseudo-inverse routes,     *)
+(* stopping rule of the power method.                                         *)
+From QV Require Import Proofs.C18_equiv Proofs.C18_pinv Proofs.C18_stop.
+
+(* For EVERY permutation the matching / RCM oracles may return, the system
+   handed to the solver is EQUIVALENT to the un-permuted modified system:
+   y solves (P L' Q) y = P b  <->  x = Q y solves L' x = b.  In particular the
+   vector handed back after _reverse_rcm is a solution of the un-permuted
+   system, and every solution of the latter is offered to the solver. *)
+Theorem C18_permuted_system_equivalent :
+  forall (R : fieldType) (n' : nat) (w : R) (Lf : fmx R)
+         (wbm rcm : option (seq nat)) (y : fvec R),
+  let n := n'.+1 in let NN := (n * n)%N in
+  opt_perm n' wbm -> opt_perm n' rcm ->
+  let '(L3, b3, perm) := direct_system 0 1 +%R *%R n w Lf wbm rcm in
+  solves NN L3 y b3 <->
+  solves NN (direct_L 0 1 +%R *%R n w Lf)
+         (match perm with Some p => reverse_rcm y p | None => y end) (direct_b 0 w).
+Proof. move=> R n' w Lf wbm rcm y /=; exact: direct_system_equiv. Qed.
+Print Assumptions C18_permuted_system_equivalent.
+Example C18_nonvacuous_permuted_system :
+  opt_perm 1 (Some [:: 2; 0; 3; 1]%N) /\ opt_perm 1 (Some [:: 1; 3; 0; 2]%N).
+Proof. by []. Qed.
+
+(* pseudo_inverse, solve route: LIQ = solve(L + s, Q) is ANY solution X of
+   (L + s) X = Q; then R = Q X is the matrix of C18_pseudo_inverse_relations *)
+Theorem C18_pseudo_inverse_solve_route :
+  forall (R : fieldType) (N : nat) (L Linv P X : 'M[R]_N) (s : R),
+  Linv *m (L + s%:M) = 1%:M -> (L + s%:M) *m X = Qp P ->
+  Qp P *m X = Rp Linv P.
+Proof. move=> R N L Linv P X s; exact: pinv_solve_route. Qed.
+Print Assumptions C18_pseudo_inverse_solve_route.
+
+(* pseudo_inverse(use_rcm=True): for EVERY permutation returned by the RCM
+   oracle (used without argsort) and EVERY answer X' of the solver to the
+   permuted system, the matrix handed back after un-permuting is that same R *)
+Theorem C18_pseudo_inverse_rcm_route :
+  forall (R : fieldType) (N : nat) (Af Qf X' : fmx R) (p : seq nat) (Linv P : 'M[R]_N),
+  is_perm N p -> mx_of_fn N N Qf = Qp P -> Linv *m mx_of_fn N N Af = 1%:M ->
+  let '(A', Q') := pinv_rcm_system p Af Qf in
+  msolves N A' X' Q' ->
+  mx_of_fn N N (pinv_rcm_R 0 +%R *%R N p Q' X') = Rp Linv P.
+Proof. move=> R N Af Qf X' p Linv P; exact: pinv_rcm_is_Rp. Qed.
+Print Assumptions C18_pseudo_inverse_rcm_route.
+Example C18_nonvacuous_pinv_rcm : pinv_rcm_example_stmt.
+Proof. exact: pinv_rcm_example. Qed.
+
+(* power method: when the loop ends by its own criterion norm(L y) <= tol
+   (C18_power_loop_returns_first_converged), the returned state
+   (Y + Y^dag) / tr has residual <= 2 tol / |tr (Y + Y^dag)| for the shifted
+   generator L = L0 + eps, and at most eps * norm(rho) more for L0 itself.
+   nrm is any absolutely homogeneous subadditive function invariant under
+   x -> vec((unvec x)^dag) (the max-norm the code uses is one). *)
+Theorem C18_power_stopping_rule_residual :
+  forall (R : fieldType) (conj : {rmorphism R -> R}) (K : numFieldType) (n : nat)
+         (absr : R -> K) (nrm : 'cV[R]_(n * n) -> K),
+  (forall a x, nrm (a *: x) = absr a * nrm x) ->
+  (forall x y, nrm (x + y) <= nrm x + nrm y)%R ->
+  (forall x, nrm (cvec (dag conj (unvec x))) = nrm x) ->
+  (forall a, 0 <= absr a)%R ->
+  forall (L0 : 'M[R]_(n * n)) (eps : R) (y : 'cV[R]_(n * n)) (tol : K),
+  hp conj (L0 + eps%:M) ->
+  (nrm ((L0 + eps%:M) *m y) <= tol)%R ->
+  let Y := unvec y in let rho := power_normalise conj Y in
+  (nrm ((L0 + eps%:M) *m cvec rho) <= absr (\tr (Y + dag conj Y))^-1 * (tol + tol))%R /\
+  (nrm (L0 *m cvec rho)
+     <= absr (\tr (Y + dag conj Y))^-1 * (tol + tol) + absr (- eps) * nrm (cvec rho))%R.
+Proof.
+move=> R conj K n absr nrm hZ hD hdag h0 L0 eps y tol Lhp Hy /=; split.
+- exact: (power_residual_shifted hZ hD hdag h0 Lhp Hy).
+- exact: (power_residual hZ hD hdag h0 Lhp Hy).
+Qed.
+Print Assumptions C18_power_stopping_rule_residual.
+(* the norm hypotheses are satisfiable by a genuine norm (rat, n = 1, |x_00|) *)
+Example C18_nonvacuous_stopping_rule :
+  [/\ forall a x, ex_nrm (a *: x) = `|a| * ex_nrm x,
+      forall x y, (ex_nrm (x + y) <= ex_nrm x + ex_nrm y)%R,
+      forall x, ex_nrm (cvec (dag [rmorphism of idfun] (unvec x))) = ex_nrm x
+    & forall a : rat, (0 <= `|a|)%R ].
+Proof. exact: ex_norm_hyps. Qed.
